@@ -1255,7 +1255,7 @@ func main() {
 		if _, ok := t.failed[obj]; ok {
 			continue
 		}
-		if owner, ok := bufName(obj); ok && (owner == "Buffer" || owner == "C") {
+		if owner, ok := bufName(obj); ok && (owner == "Buffer" || owner == "C" || (owner == "PoolAllocator" && fd.Name.Name == "Put")) {
 			t.bufMethod(fd)
 			continue
 		}
